@@ -3,7 +3,7 @@
 # usage: tools/retest_mutants.sh [dir ...]   (default: all of seeded/*)
 cd /verif || exit 2
 git -C /repo diff --quiet || { echo "/repo has uncommitted changes"; exit 2; }
-dirs="$@"; [ -z "$dirs" ] && dirs=$(ls -d seeded/*/)
+dirs="$@"; [ -z "$dirs" ] && dirs=$(ls -d seeded/C*/)
 for d in $dirs; do
   d=${d%/}; id=$(basename $d); prop=${id%%-*}
   if ! git -C /repo apply --check /verif/$d/patch.diff 2>/dev/null; then echo "$id: patch no longer applies"; continue; fi
